@@ -80,7 +80,11 @@ impl AllowlistRule {
         if let Some(idx) = self.deny_patterns.matches(file_name).into_iter().next() {
             return Some(format!("pattern #{idx}"));
         }
-        if let Some(idx) = self.deny_patterns.matches(file_path).into_iter().next() {
+        if let Some(idx) = self
+            .deny_patterns
+            .matches(normalize_for_matching(file_path))
+            .into_iter()
+            .next() {
             return Some(format!("pattern #{idx}"));
         }
 
@@ -120,7 +124,8 @@ impl AllowlistRule {
         }
 
         // Check patterns (OR logic with extensions and files)
-        if self.allow_patterns.is_match(file_name) || self.allow_patterns.is_match(file_path) {
+        if self.allow_patterns.is_match(file_name)
+            || self.allow_patterns.is_match(normalize_for_matching(file_path)) {
             return true;
         }
 
